@@ -21,7 +21,7 @@ type gen struct {
 	labels []string
 }
 
-func (g *gen) n(k int) int      { return g.r.Intn(k) }
+func (g *gen) n(k int) int       { return g.r.Intn(k) }
 func (g *gen) chance(p int) bool { return g.r.Intn(100) < p }
 func (g *gen) pick(ss ...string) string {
 	return ss[g.r.Intn(len(ss))]
